@@ -34,8 +34,7 @@ var panicOwners = map[string]string{
 
 // consumptionListed: consumption sites whose safety is not a front-token test, confirmed by reading.
 var consumptionListed = map[string]string{
-	"parseCommentBefore/it.popFront()#1":                      "the loop runs while it.offset < end.offset and end is a valid position of the same token slice",
-	"parseTL2TypeArgumentDeclaration/restTokens.popFront()#2": "dominated by `front := restTokens.front(); if !(front.tokenType == numberSign || front.val == \"Type\") { fail; return }`; eof has empty text and another kind",
+	"parseCommentBefore/it.popFront()#1": "the loop runs while it.offset < end.offset and end is a valid position of the same token slice",
 }
 
 // valSliceOwners: functions that slice/index token text, with the lexer rule that makes it safe.
@@ -167,6 +166,11 @@ func parserCheck(c *Check, id string) {
 						}
 						ok, why := consumptionGuarded(info, fi, stack, n, recv, want, eofConst)
 						key := fname + "/" + recv + "." + sel.Sel.Name + "(" + want + ")#" + fmt.Sprint(ordinalIn(fi, n))
+						if !ok {
+							if g, desc := frontKindGuard(info, fi, n, recv, eofConst); g {
+								ok, why = true, desc
+							}
+						}
 						if reason, listed := consumptionListed[key]; !ok && listed {
 							ok, why = true, "listed: "+reason
 						}
@@ -1563,4 +1567,109 @@ func lexerAdvanceBounded(c *Check, r *repoCtx) {
 	}
 	c.Set("lexer_advance_sites", n)
 	c.Floor("lexer/advance-length-within-input", 30)
+}
+
+// frontKindGuard: the consumption is dominated by `f := it.front(); if !(f.tokenType == K || f.val == "lit" …) { …; return }`
+// with every K a non-eof kind and every literal non-empty (the eof token has its own kind and an empty text), the
+// front token is read before the test, and nothing is consumed from it between the read and the consumption.
+func frontKindGuard(info *types.Info, fi *FuncInfo, call *ast.CallExpr, recv string, eofConst func(ast.Expr) bool) (bool, string) {
+	ok, desc := false, ""
+	ast.Inspect(fi.Decl.Body, func(n ast.Node) bool {
+		is, isIf := n.(*ast.IfStmt)
+		if !isIf || ok || is.End() > call.Pos() || len(is.Body.List) == 0 {
+			return true
+		}
+		if _, ret := is.Body.List[len(is.Body.List)-1].(*ast.ReturnStmt); !ret {
+			return true
+		}
+		un, isNot := ast.Unparen(is.Cond).(*ast.UnaryExpr)
+		if !isNot || un.Op != token.NOT {
+			return true
+		}
+		var tokVar types.Object
+		good := true
+		var disj func(e ast.Expr)
+		disj = func(e ast.Expr) {
+			e = ast.Unparen(e)
+			if be, isB := e.(*ast.BinaryExpr); isB && be.Op == token.LOR {
+				disj(be.X)
+				disj(be.Y)
+				return
+			}
+			be, isB := e.(*ast.BinaryExpr)
+			if !isB || be.Op != token.EQL {
+				good = false
+				return
+			}
+			sel, isSel := ast.Unparen(be.X).(*ast.SelectorExpr)
+			if !isSel {
+				good = false
+				return
+			}
+			id, isID := sel.X.(*ast.Ident)
+			if !isID {
+				good = false
+				return
+			}
+			if tokVar == nil {
+				tokVar = info.Uses[id]
+			} else if tokVar != info.Uses[id] {
+				good = false
+			}
+			switch sel.Sel.Name {
+			case "tokenType":
+				if tv, isC := info.Types[be.Y]; !isC || tv.Value == nil || eofConst(be.Y) {
+					good = false
+				}
+			case "val":
+				if tv, isC := info.Types[be.Y]; !isC || tv.Value == nil || tv.Value.Kind() != constant.String || constant.StringVal(tv.Value) == "" {
+					good = false
+				}
+			default:
+				good = false
+			}
+		}
+		disj(un.X)
+		if !good || tokVar == nil {
+			return true
+		}
+		// tokVar := recv.front() before the test, and no consumption from recv between that read and the call
+		var defPos token.Pos
+		ast.Inspect(fi.Decl.Body, func(x ast.Node) bool {
+			as, isA := x.(*ast.AssignStmt)
+			if !isA || len(as.Lhs) != 1 || len(as.Rhs) != 1 {
+				return true
+			}
+			if id, isID := as.Lhs[0].(*ast.Ident); isID && (info.Defs[id] == tokVar || info.Uses[id] == tokVar) {
+				if c, isC := as.Rhs[0].(*ast.CallExpr); isC {
+					if sel, isSel := c.Fun.(*ast.SelectorExpr); isSel && sel.Sel.Name == "front" && types.ExprString(sel.X) == recv && as.End() < is.Pos() {
+						defPos = as.Pos()
+					}
+				}
+			}
+			return true
+		})
+		if defPos == token.NoPos {
+			return true
+		}
+		consumedBetween := false
+		ast.Inspect(fi.Decl.Body, func(x ast.Node) bool {
+			c, isC := x.(*ast.CallExpr)
+			if !isC || c == call || c.Pos() < defPos || c.Pos() > call.Pos() {
+				return true
+			}
+			if sel, isSel := c.Fun.(*ast.SelectorExpr); isSel && types.ExprString(sel.X) == recv {
+				switch sel.Sel.Name {
+				case "popFront", "expectOrPanic", "expect", "expectLazy", "skipToNewline":
+					consumedBetween = true
+				}
+			}
+			return true
+		})
+		if !consumedBetween {
+			ok, desc = true, "dominated by a read of the front token and `if !(kind/text is one of the accepted non-eof ones) { …; return }`, with nothing consumed in between"
+		}
+		return true
+	})
+	return ok, desc
 }
